@@ -1,29 +1,52 @@
 package main
 
+// Counterexample replay: the solver's model is rendered into an in-package
+// Go test that calls the REAL function (injected with `go test -overlay`, so
+// /repo is never written to) and observes the failed obligation.
+
+import (
+	"bytes"
+	"context"
+	"encoding/json"
+	"fmt"
+	"go/types"
+	"os"
+	"os/exec"
+	"path/filepath"
+	"regexp"
+	"strconv"
+	"strings"
+	"time"
+
+	"golang.org/x/tools/go/ssa"
+)
+
 type replayResult struct {
 	path       string
 	reproduced bool
 }
 
-// replayViolation writes the replay file of a failed obligation and, where a
-// replay driver exists for it, runs the counterexample against the real code.
 func replayViolation(P *Program, id string, v *ObligResult) replayResult {
 	payload := map[string]interface{}{
-		"property":   id,
-		"obligation": v.Name,
-		"kind":       v.Kind,
-		"position":   v.Pos,
-		"note":       v.Note,
-		"result":     v.Result,
-		"backend":    v.Backend,
-		"model":      v.Model,
+		"property":      id,
+		"obligation":    v.Name,
+		"kind":          v.Kind,
+		"position":      v.Pos,
+		"note":          v.Note,
+		"result":        v.Result,
+		"backend":       v.Backend,
+		"model":         v.Model,
 		"solver_output": truncate(v.raw, 4000),
-		"smtlib":     truncate(v.query, 20000),
+		"smtlib":        truncate(v.query, 30000),
 	}
 	rr := replayResult{}
-	if drv := replayDriverFor(v.Name); drv != nil && v.Result == "failed" {
-		out, ok := drv(P, v)
-		payload["replay_output"] = out
+	if v.Result == "failed" && os.Getenv("GOVC_NO_REPLAY") == "" {
+		src, out, ok, err := replayOnRealCode(P, v)
+		if err != nil {
+			payload["replay_error"] = err.Error()
+		}
+		payload["replay_test"] = src
+		payload["replay_output"] = truncate(out, 6000)
 		payload["reproduced_on_real_code"] = ok
 		rr.reproduced = ok
 	} else {
@@ -33,6 +56,395 @@ func replayViolation(P *Program, id string, v *ObligResult) replayResult {
 	return rr
 }
 
-type replayDriver func(P *Program, v *ObligResult) (string, bool)
+var reObligName = regexp.MustCompile(`^(.*)#([a-z-]+):(.*)$`)
 
-func replayDriverFor(name string) replayDriver { return nil }
+// fnOfObligation resolves "pkg.Key#kind:label" to the function.
+func fnOfObligation(P *Program, name string) *ssa.Function {
+	m := reObligName.FindStringSubmatch(name)
+	if m == nil {
+		return nil
+	}
+	disp := m[1]
+	for _, fn := range P.Funcs {
+		if fnDisplay(fn) == disp {
+			return fn
+		}
+	}
+	return nil
+}
+
+type goGen struct {
+	P       *Program
+	model   map[string]string
+	pkg     *types.Package
+	imports map[string]bool
+	pre     []string // statements before the call
+	n       int
+}
+
+func (g *goGen) qual(p *types.Package) string {
+	if p == g.pkg {
+		return ""
+	}
+	g.imports[p.Path()] = true
+	return p.Name()
+}
+
+func (g *goGen) typeStr(t types.Type) string {
+	return types.TypeString(t, g.qual)
+}
+
+func (g *goGen) mval(name string) (string, bool) {
+	v, ok := g.model[name]
+	return v, ok
+}
+
+func smtIntToGo(v string) string {
+	v = strings.TrimSpace(v)
+	v = strings.ReplaceAll(v, "(- ", "-")
+	v = strings.ReplaceAll(v, ")", "")
+	v = strings.ReplaceAll(v, " ", "")
+	if _, err := strconv.ParseInt(v, 10, 64); err != nil {
+		if strings.HasPrefix(v, "-") {
+			return "-9223372036854775807"
+		}
+		return "9223372036854775807"
+	}
+	return v
+}
+
+// expr renders a Go expression of type t from the model, where name is the
+// SMT variable naming convention of values.go (freshVal).
+func (g *goGen) expr(t types.Type, name string, depth int) string {
+	if depth > 6 {
+		return g.zero(t)
+	}
+	switch u := under(t).(type) {
+	case *types.Basic:
+		v, ok := g.mval(name)
+		switch {
+		case u.Info()&types.IsBoolean != 0:
+			if ok {
+				return g.conv(t, v)
+			}
+			return g.conv(t, "false")
+		case u.Info()&types.IsString != 0:
+			if ok {
+				return g.conv(t, strconv.Quote(decodeSMTString(v)))
+			}
+			return g.conv(t, `""`)
+		case u.Info()&types.IsInteger != 0:
+			if ok {
+				return g.conv(t, smtIntToGo(v))
+			}
+			return g.conv(t, "0")
+		case u.Info()&types.IsFloat != 0:
+			return g.conv(t, "0")
+		}
+	case *types.Pointer:
+		if v, ok := g.mval(name + "$nil"); ok && v == "true" {
+			return "nil"
+		}
+		if qualifiedTypeName(u.Elem()) == "regexp.Regexp" {
+			g.imports["regexp"] = true
+			return `regexp.MustCompile("")`
+		}
+		if qualifiedTypeName(u.Elem()) == "bytes.Buffer" {
+			g.imports["bytes"] = true
+			c, _ := g.mval("*" + name + ".content")
+			return "bytes.NewBufferString(" + strconv.Quote(decodeSMTString(c)) + ")"
+		}
+		if _, isStruct := under(u.Elem()).(*types.Struct); isStruct {
+			if _, abs := abstractTypes[qualifiedTypeName(u.Elem())]; abs {
+				return "new(" + g.typeStr(u.Elem()) + ")"
+			}
+			inner := g.expr(u.Elem(), "*"+name, depth+1)
+			return "&" + inner
+		}
+		g.n++
+		tmp := fmt.Sprintf("p%d", g.n)
+		g.pre = append(g.pre, fmt.Sprintf("%s := %s", tmp, g.expr(u.Elem(), "*"+name, depth+1)))
+		return "&" + tmp
+	case *types.Slice:
+		if v, ok := g.mval(name + "$nil"); ok && v == "true" {
+			return g.typeStr(t) + "(nil)"
+		}
+		n := 0
+		if v, ok := g.mval(name + "$len"); ok {
+			n, _ = strconv.Atoi(smtIntToGo(v))
+		}
+		if n > 64 {
+			n = 64
+		}
+		if isByteType(u.Elem()) {
+			c, _ := g.mval(name + "$arr")
+			b := decodeSMTString(c)
+			for len(b) < n {
+				b += "\x00"
+			}
+			if n < len(b) {
+				b = b[:n]
+			}
+			return g.typeStr(t) + "(" + strconv.Quote(b) + ")"
+		}
+		var elems []string
+		for i := 0; i < n; i++ {
+			elems = append(elems, g.elemFromArray(u.Elem(), name+"$arr", i, depth+1))
+		}
+		return g.typeStr(t) + "{" + strings.Join(elems, ", ") + "}"
+	case *types.Struct:
+		if _, abs := abstractTypes[qualifiedTypeName(t)]; abs {
+			return g.typeStr(t) + "{}"
+		}
+		var fs []string
+		for i := 0; i < u.NumFields(); i++ {
+			f := u.Field(i)
+			if !f.Exported() && f.Pkg() != g.pkg {
+				continue
+			}
+			fs = append(fs, f.Name()+": "+g.expr(f.Type(), name+"."+f.Name(), depth+1))
+		}
+		return g.typeStr(t) + "{" + strings.Join(fs, ", ") + "}"
+	case *types.Map:
+		if v, ok := g.mval(name + "$nil"); ok && v == "true" {
+			return g.typeStr(t) + "(nil)"
+		}
+		return "make(" + g.typeStr(t) + ")"
+	case *types.Chan:
+		if v, ok := g.mval(name + "$nil"); ok && v == "true" {
+			return g.typeStr(t) + "(nil)"
+		}
+		ct := types.NewChan(types.SendRecv, u.Elem())
+		return "(" + g.typeStr(t) + ")(make(" + g.typeStr(ct) + ", 1024))"
+	case *types.Interface:
+		if isContextType(t) {
+			g.imports["context"] = true
+			return "context.Background()"
+		}
+		return "nil"
+	case *types.Signature:
+		return "nil"
+	case *types.Array:
+		return g.typeStr(t) + "{}"
+	}
+	return g.zero(t)
+}
+
+func (g *goGen) conv(t types.Type, lit string) string {
+	if _, named := t.(*types.Named); named {
+		return g.typeStr(t) + "(" + lit + ")"
+	}
+	if b, ok := t.(*types.Basic); ok && (b.Kind() == types.Int || b.Kind() == types.String || b.Kind() == types.Bool || b.Kind() == types.UntypedInt) {
+		return lit
+	}
+	return g.typeStr(t) + "(" + lit + ")"
+}
+
+func (g *goGen) zero(t types.Type) string {
+	switch under(t).(type) {
+	case *types.Pointer, *types.Slice, *types.Map, *types.Chan, *types.Interface, *types.Signature:
+		return "nil"
+	case *types.Struct, *types.Array:
+		return g.typeStr(t) + "{}"
+	}
+	return "*new(" + g.typeStr(t) + ")"
+}
+
+// elemFromArray reads element i of an SMT array value from the model
+// (available as the value of the term `(select name i)`).
+func (g *goGen) elemFromArray(et types.Type, arr string, i int, depth int) string {
+	key := fmt.Sprintf("(select %s %d)", smtSym(arr), i)
+	v, ok := g.model[key]
+	if !ok {
+		return g.zero(et)
+	}
+	return g.fromSMTValue(et, v, depth)
+}
+
+// fromSMTValue renders a model value (literal or datatype constructor) as Go.
+func (g *goGen) fromSMTValue(t types.Type, v string, depth int) string {
+	switch u := under(t).(type) {
+	case *types.Basic:
+		switch {
+		case u.Info()&types.IsBoolean != 0:
+			return g.conv(t, v)
+		case u.Info()&types.IsString != 0:
+			return g.conv(t, strconv.Quote(decodeSMTString(v)))
+		case u.Info()&types.IsInteger != 0:
+			return g.conv(t, smtIntToGo(v))
+		}
+	case *types.Struct:
+		sx := sexpParse(v)
+		if len(sx) == 1 && sx[0].list && len(sx[0].kids) == u.NumFields()+1 {
+			var fs []string
+			for i := 0; i < u.NumFields(); i++ {
+				f := u.Field(i)
+				if !f.Exported() && f.Pkg() != g.pkg {
+					continue
+				}
+				switch under(f.Type()).(type) {
+				case *types.Basic:
+					fs = append(fs, f.Name()+": "+g.fromSMTValue(f.Type(), sx[0].kids[i+1].text(), depth+1))
+				}
+			}
+			return g.typeStr(t) + "{" + strings.Join(fs, ", ") + "}"
+		}
+	}
+	return g.zero(t)
+}
+
+// importsOf: does package p (transitively) import q?
+func importsTransitively(p *types.Package, q string, seen map[string]bool) bool {
+	if p.Path() == q {
+		return true
+	}
+	if seen[p.Path()] {
+		return false
+	}
+	seen[p.Path()] = true
+	for _, i := range p.Imports() {
+		if importsTransitively(i, q, seen) {
+			return true
+		}
+	}
+	return false
+}
+
+func (P *Program) pkgDir(p *types.Package) string {
+	pp := P.PkgOf[p.Path()]
+	if pp == nil || len(pp.GoFiles) == 0 {
+		return ""
+	}
+	return filepath.Dir(pp.GoFiles[0])
+}
+
+// replayOnRealCode generates and runs the replay test. Supported: safety
+// obligations (the real function must panic) of package-level functions and
+// methods whose receiver and parameters can be built from the model.
+func replayOnRealCode(P *Program, v *ObligResult) (src, out string, reproduced bool, err error) {
+	if drv, ok := specialReplays[v.Name]; ok {
+		return drv(P, v)
+	}
+	switch v.Kind {
+	case "bounds", "nil", "div", "makechan", "makeslice", "typeassert", "panic":
+	default:
+		return "", "", false, fmt.Errorf("no generic replay for obligation kind %q", v.Kind)
+	}
+	fn := fnOfObligation(P, v.Name)
+	if fn == nil || fn.Pkg == nil || fn.Parent() != nil {
+		return "", "", false, fmt.Errorf("no generic replay for closures / unknown functions")
+	}
+	g := &goGen{P: P, model: v.Model, pkg: fn.Pkg.Pkg, imports: map[string]bool{"testing": true, "fmt": true}}
+	var args []string
+	recvExpr := ""
+	params := fn.Params
+	if fn.Signature.Recv() != nil {
+		recvExpr = g.expr(params[0].Type(), params[0].Name(), 0)
+		params = params[1:]
+	}
+	for _, p := range params {
+		args = append(args, g.expr(p.Type(), p.Name(), 0))
+	}
+	call := ""
+	if recvExpr != "" {
+		call = fmt.Sprintf("(%s).%s(%s)", recvExpr, fn.Name(), strings.Join(args, ", "))
+	} else {
+		call = fmt.Sprintf("%s(%s)", fn.Name(), strings.Join(args, ", "))
+	}
+	body := strings.Join(g.pre, "\n\t") + "\n\t" + call
+	src = g.testFile(fn.Pkg.Pkg, body)
+	out, reproduced, err = runOverlayTest(P, fn.Pkg.Pkg, src)
+	return
+}
+
+func (g *goGen) testFile(pkg *types.Package, body string) string {
+	fixture := ""
+	useConfig := !importsTransitively(g.P.SSA[modPath+"/internal/config"].Pkg, pkg.Path(), map[string]bool{})
+	useDlog := !importsTransitively(g.P.SSA[modPath+"/internal/io/dlog"].Pkg, pkg.Path(), map[string]bool{})
+	if useConfig && pkg.Path() != modPath+"/internal/config" {
+		g.imports[modPath+"/internal/config"] = true
+		g.imports[modPath+"/internal/source"] = true
+		fixture += "\tconfig.Setup(source.Server, &config.Args{ConfigFile: \"none\", Logger: \"none\", LogLevel: \"error\"}, nil)\n"
+	}
+	if useDlog && useConfig {
+		g.imports[modPath+"/internal/io/dlog"] = true
+		g.imports["context"] = true
+		g.imports["sync"] = true
+		fixture += "\tvar wg sync.WaitGroup\n\twg.Add(1)\n\tfixCtx, fixCancel := context.WithCancel(context.Background())\n\tdefer fixCancel()\n\tdlog.Start(fixCtx, &wg, source.Server)\n"
+	}
+	var imps []string
+	for p := range g.imports {
+		name := ""
+		if p == modPath+"/internal/user/server" {
+			name = "user "
+		}
+		imps = append(imps, "\t"+name+strconv.Quote(p))
+	}
+	sortStrings(imps)
+	return fmt.Sprintf(`package %s
+
+import (
+%s
+)
+
+func TestGovcReplay(t *testing.T) {
+%s	panicked := true
+	var pv interface{}
+	func() {
+		defer func() { pv = recover() }()
+		%s
+		panicked = false
+	}()
+	if panicked {
+		fmt.Printf("GOVC-REPLAY: panic: %%v\n", pv)
+		t.Fatalf("reproduced: the real function panics: %%v", pv)
+	}
+	fmt.Println("GOVC-REPLAY: no panic")
+}
+`, pkg.Name(), strings.Join(imps, "\n"), fixture, body)
+}
+
+func sortStrings(s []string) {
+	for i := 1; i < len(s); i++ {
+		for j := i; j > 0 && s[j] < s[j-1]; j-- {
+			s[j], s[j-1] = s[j-1], s[j]
+		}
+	}
+}
+
+// runOverlayTest injects src as an extra _test.go file of pkg and runs it.
+// reproduced = the test failed with the GOVC-REPLAY marker.
+func runOverlayTest(P *Program, pkg *types.Package, src string) (string, bool, error) {
+	dir := P.pkgDir(pkg)
+	if dir == "" {
+		return "", false, fmt.Errorf("no directory for %s", pkg.Path())
+	}
+	tmp, err := os.MkdirTemp("", "govc-replay-")
+	if err != nil {
+		return "", false, err
+	}
+	defer os.RemoveAll(tmp)
+	tf := filepath.Join(tmp, "replay_test.go")
+	if err := os.WriteFile(tf, []byte(src), 0o644); err != nil {
+		return "", false, err
+	}
+	ov := map[string]map[string]string{"Replace": {filepath.Join(dir, "zz_govc_replay_test.go"): tf}}
+	ob, _ := json.Marshal(ov)
+	of := filepath.Join(tmp, "overlay.json")
+	os.WriteFile(of, ob, 0o644)
+	ctx, cancel := context.WithTimeout(context.Background(), 120*time.Second)
+	defer cancel()
+	cmd := exec.CommandContext(ctx, "go", "test", "-overlay", of, "-vet=off", "-count=1", "-timeout", "60s", "-run", "^TestGovcReplay$", ".")
+	cmd.Dir = dir
+	cmd.Env = append(os.Environ(), "GOFLAGS=-mod=mod", "GOPROXY=off", "GOSUMDB=off", "GOTOOLCHAIN=local", "DTAIL_HOSTNAME_OVERRIDE=replayhost")
+	var out bytes.Buffer
+	cmd.Stdout = &out
+	cmd.Stderr = &out
+	runErr := cmd.Run()
+	o := out.String()
+	reproduced := runErr != nil && strings.Contains(o, "GOVC-REPLAY:") && strings.Contains(o, "reproduced")
+	return o, reproduced, nil
+}
+
+// specialReplays: drivers for obligations whose observation is not "panics".
+var specialReplays = map[string]func(P *Program, v *ObligResult) (string, string, bool, error){}
